@@ -31,7 +31,7 @@ META = {
     "design_ref": "DESIGN.md §5 C11",
 }
 
-MARK = "​"
+MARK = "\u200b"
 
 
 class B(dict):
